@@ -16,6 +16,10 @@ CLAIMED = {
             "runtime monitor: lifecycle replay through the real provisioner + lifecycle controller + kubelet actor with a hostile provider; every pod on a new NodeClaim judged inadmissible on every active existing node (independent oracle, provider ground truth); API read log watched for scheduling passes while a NodeClaim is unlaunched",
             "Pods without inter-pod constraints or preferences are provisioned and deliberately left pending while each created NodeClaim moves at its own pace through created/launched/node-appeared/registered/initialized; provisioning is re-run after every step (3-8 passes per case) and each pod placed on new capacity must be inadmissible on all existing/in-flight nodes with their final load, nodes marked for deletion must not receive pods, and the real Provisioner.Reconcile must not reach a scheduling pass while a claim is unlaunched. Held-on-observed.",
             "Judges 'could admit' with the constraints Karpenter evaluates for the placed copy (first required OR-term, PreferNoSchedule treated as hard) so that only placements wrong under every reading alarm; daemonsets select on NodePool-level labels only; trusts oracle, fake API, provider ground truth."),
+    "C15": ("exploration", "DESIGN.md §3 C15",
+            "runtime monitoring of the unmodified hash / scheduler / lifecycle / nodeclaim-disruption controllers with independent oracles: reflection-generated differential hash check, and Kubernetes label-selector semantics over stored labels and annotations for drift; every launch choice the serialized NodeClaim permits is launched",
+            "Part (a) walks a randomly populated NodePoolSpec by reflection: every template leaf set to two values must change the hash unless under requirements, permutations and non-template edits never do. Part (b) drives validation-accepted NodePools (CRD+CEL+RuntimeValidate) through the real hash controller, scheduler, Provisioner.Create / static provisioning, lifecycle launch of EVERY permitted (instance type, offering) and the real nodeclaim disruption controller: a fresh claim must not be Drifted. Part (c) edits the pool (violating / benign requirement edits, hashed-field edits, reorders, hash-version scenarios, reverts) and checks Drifted appears exactly when the statement says. One genuine defect fixed (Any() drawing excluded values), three recorded.",
+            "One NodePool per world; hash controller always reconciles before the disruption controller; provider IsDrifted kept empty; CRD create rules only."),
     "C17": ("exploration", "DESIGN.md §3 C17",
             "runtime monitoring of the real scheduler on generated inputs: per-reservation holder counts, pins and strict-mode deferrals judged on scheduling.Results and the serialized NodeClaim; DRA allocations judged from Results.DRAClaimAllocationMetadata against the generator's device table; Go race detector (diagnostic)",
             "Generated worlds with dense reserved offerings (ids shared across instance types and weighted pools, capacities 0-3) and DRA populations (exclusive, consumable-capacity and partitionable devices; node-local, cluster-wide and template slices) are scheduled by the real Provisioner.Schedule under parallelism 1/4/8; per reservation id the claims able to launch into it never exceed the smallest advertised capacity, pinned claims carry exactly reserved + a finite compatible id set, strict mode defers instead of falling back, and no exclusive device / shared capacity / counter is over-committed over all co-occurring (NodeClaim, instance type) combinations. 14 of 15 mutants caught. Held-on-observed.",
@@ -32,10 +36,22 @@ CLAIMED = {
             "runtime monitor: real disruption controller (all methods, validation delay on the virtual clock) on clusters grown through the real pipeline; every Underutilized/Empty command entering the orchestration queue judged by the admissibility oracle and an independent price oracle (provider ground-truth prices, worst admitted launch)",
             "Clusters with over-provisioned, underutilised and empty nodes (hostile provider launch choices, price ties, spot/on-demand inversions, unavailable and capacity-overridden offerings, frozen pools, SpotToSpot gate both ways) are reconciled by the real disruption controller; each accepted consolidation command must re-home every reschedulable candidate pod admissibly on initialized non-candidate nodes or one replacement, every replacement option must be strictly cheaper in its worst admitted launch, and Empty commands may only drop pods with non-positive eviction cost. Held-on-observed; two recorded findings.",
             "No world churn during the 15 s validation wait (the command's own simulation results are judged); no reserved offerings, PDBs or do-not-disrupt in these worlds (C07 covers blockers); trusts oracle, fake API, provider ground truth."),
+    "C07": ("exploration", "DESIGN.md §3 C07",
+            "runtime monitor: real disruption controller on clusters where every node is attractive and carries at most one blocker; every candidate of every command entering the orchestration queue judged against the statement's conjunction recomputed from the authoritative world (nominations from the harness' own record); blockers also applied during the validation wait",
+            "Clusters are made attractive for one mode (all empty / underutilised / drifted / drifted with terminationGracePeriod / mixed) with consolidateAfter 0s/5m/Never, policies WhenEmpty/WhenEmptyOrUnderutilized/Balanced and some uninitialised nodes; each node then gets at most one of 13 blockers or controls (node / pod / daemon-pod / terminal-pod do-not-disrupt in boolean and duration forms incl. expiry boundaries, PDB zero / double / allowing, nominated, deleting, recent pod event) and more are applied during the 15 s validation wait. No command may contain a node the statement excludes; drift may override pod-level blockers only with a terminationGracePeriod. Held-on-observed; evidence lists per (method, blocker) how often blocked nodes were spared.",
+            "Static pools / StaticDrift and capacity-buffer placements are not generated (no cell for them); nomination instants are the harness' own record of NominateNodeForPod calls and StartCommand placements; trusts PDB arithmetic of the fake eviction endpoint."),
     "C10": ("exploration", "DESIGN.md §3 C10",
             "runtime monitoring: API-boundary event-log monitors (eviction sub-resource creates and pod deletes with grace, judged atomically with the write) plus Queue.Has observation over PRNG-interleaved and concurrent drain passes / eviction-queue reconciles; Go race detector",
             "The real node-termination controller, Terminator and eviction queue are executed on generated drain histories (pod mixes over priorities, owners, grace periods, do-not-disrupt forms, tolerations, terminating/terminal states; PDB layouts; NodeClaims with and without terminationGracePeriod; deadline annotation moved later/earlier/removed; pods replaced under the same name; clock swept across D-grace boundaries); every pod-removal call is judged by an independent re-implementation of the statement (removal mode, protected pods, tier ordering, deadline never pushed out). Part of the case list is repeated under the race detector, where a data race between Karpenter paths is a violation. Held-on-observed.",
             "Trusts the harness' eviction/PDB and graceful-delete emulation, the virtual clock, a reflection read of Queue.source as the work-queue feed and the oracle in props/c10/oracle.go; deadline-based direct deletion of static/tolerating pods is not flagged (the statement allows it)."),
+    "C11": ("exploration", "DESIGN.md §3 C11",
+            "runtime monitoring by differential state comparison: real informer controllers + state.Cluster driven by generated histories under PRNG delivery schedules (duplicates, postponed keys, deletions before older updates, honoured requeues, concurrent rounds) vs a fresh Cluster fed the same API content; accessors, behavioural probes and read-only reflection digests; Go race detector",
+            "Generated histories of 10-60 Node/NodeClaim/Pod/DaemonSet changes plus MarkForDeletion/Unmark/Nominate calls are delivered to the real state informers under 3 (quick) / 5 (thorough) schedules each; after the latest version of every object has been observed, and again after a full re-delivery, every exported view (requests, limits, daemon requests, host ports, volume usage, disruption cost, capacity, marks, nominations, pool totals and node counts, anti-affinity bindings) and a reflection digest must equal a brand-new Cluster. Four genuine divergences found and fixed, one recorded. Data races between Karpenter paths are violations.",
+            "Reference = Karpenter's own canonical-order path on a fresh Cluster cross-checked against first principles; unique provider ids, NodeClaim names never reused; concurrent runs are structured rounds."),
+    "C12": ("exploration", "DESIGN.md §3 C12",
+            "runtime monitoring of the real public methods of scheduling.Requirement/Requirements against plain operator semantics (cross-checked with upstream nodeaffinity) on a complete probe set plus an exact symbolic emptiness decision; exhaustive over a bounded universe, random n-ary folds and pod-vs-node cases on top",
+            "Every requirement over 8 operators x argument lists of a 7-value (quick) / 9-value (thorough) universe incl. MaxInt/MinInt-adjacent bounds, every ordered pair and triple, and every pair of single-key requirement sets of <=2 atoms is executed against the real code: Has, Intersection, HasIntersection, Len, Operator, minValues, aliases, Requirements.Add/Compatible/Intersects with and without AllowUndefinedWellKnownLabels (~30M compatibility checks per quick run), plus random folds, multi-key sets and pod-vs-node cases judged by the upstream matcher. Exhaustive for the stated universe only; two genuine defects fixed, two recorded.",
+            "Trusts oracle.Admits (cross-checked against upstream nodeaffinity), the probe-completeness argument (cross-checked against the symbolic decision), hard-coded copies of the alias tables; Any() excluded."),
     "C13": ("exploration", "DESIGN.md §3 C13",
             "runtime monitor: NodeClaim objects captured at the API boundary (interceptor) compared key-by-key over a probe universe with the scheduler's in-memory requirements; NodePools pre-filtered by the real in-process CRD schema + CEL + RuntimeValidate pipeline; panics recovered per Create",
             "NodePool requirements are redrawn over all eight operators with several requirements per key (well-known enumerated / integer and custom keys, incl. Lt 0, Gt+NotIn, Gte+Lte), kept only if a real API server would accept them, and pushed through the real Solve → Truncate → Provisioner.Create path; for every created NodeClaim the serialized requirements, instance-type list, minValues floors, resource requests, labels, taints and hash annotations are judged against the in-memory decision and the template. Held-on-observed; two genuine defects found and fixed.",
